@@ -27,7 +27,7 @@ unsigned rtosc_narguments(const char *msg)
 {
     const char *args = rtosc_argument_string(msg);
     int nargs = 0;
-    while(*args++)
+    for(;*args;++args)
         nargs += (*args == ']' || *args == '[') ? 0 : 1;
     return nargs;
 }
